@@ -398,7 +398,13 @@ func blockStringValue(in string) string {
 	}
 	if commonIndent > 0 {
 		for i, line := range lines {
+			if i == 0 {
+				// the first line keeps its indentation (BlockStringValue)
+				continue
+			}
 			if commonIndent > len(line) {
+				// a blank line shorter than the common indentation
+				lines[i] = ""
 				continue
 			}
 			lines[i] = line[commonIndent:]
